@@ -382,8 +382,22 @@ pub fn evaluate(case: &Case, results: &[Vec<RunResult>], report: &mut CaseReport
                     for path in &case.params.observed {
                         let a = first.files().get(path.as_str()).copied();
                         let b = r.files().get(path.as_str()).copied();
-                        if a.is_none() {
-                            return Verdict::Vacuous(format!("observed file {path} not written"));
+                        // The observed module must be part of both worlds (a minimised or
+                        // hand-made replay may have lost it): otherwise the premise fails.
+                        let source = format!("{}.pyxis", path.trim_end_matches(".rs"));
+                        let in_world = |w: usize| {
+                            case.worlds[w]
+                                .module_files()
+                                .iter()
+                                .any(|(p, _)| *p == source)
+                        };
+                        if a.is_none()
+                            || !in_world(case.builds[b0].world)
+                            || !in_world(case.builds[bi].world)
+                        {
+                            return Verdict::Vacuous(format!(
+                                "observed module {source} is not part of every world of the chain"
+                            ));
                         }
                         if a != b {
                             return Verdict::violation(
